@@ -177,9 +177,16 @@ CLAIMS = [
                 "generations (Inv/Rel quantify over them); the shipped swap provably breaks the migration bookkeeping when one side has stripes "
                 "pending (swap_shipped_breaks_bookkeeping, finding F6). In the value model copy/move are identities, so the content of the claim "
                 "is WHICH members are transferred; that is tied by K2: copy/move construction and assignment (also onto moved-from objects), member "
-                "and ADL swap between populated tables in arbitrary states, followed by full-state digests, structural scans and workloads on all objects.",
+                "and ADL swap between populated tables in arbitrary states, followed by full-state digests, structural scans and workloads on all objects. "
+                "Allocators: Model/Objects.lean models a table object as (table value, allocator identity) under the three propagation traits; "
+                "ctor_transfers_all / ctor_keeps_settings (plain and allocator-extended constructors, equal or different allocator: complete working "
+                "table, allocator as the standard requires; an unequal allocator rebuilds only the current lock array), assign_transfers_all, "
+                "assign_keeps_allocator, swap_with_allocators (for every policy/pair for which C++ defines swap), self_assign_identity. K2 runs the "
+                "same requests on builds with an identity-carrying allocator for each of the 8 policy combinations (incl. self-assignment, self-swap, "
+                "self-move followed by assignment) and checks the allocator each object reports, which instance owns its bucket array, and that no "
+                "block is returned to an instance other than the one it came from.",
         "design_ref": "DESIGN.md 6/C11, 12",
-        "note": "Allocator propagation policies (unequal / propagating allocators) are not modelled and not exercised (the harness allocator is always-equal).",
+        "note": "The state of a moved-from source after an element-wise move (unequal, non-propagating allocators) is only required to be destroyable / assignable, as the property says.",
     },
     {
         "property_id": "C14",
